@@ -82,7 +82,7 @@ def dicOps (op : String) (arg : String) : Option String :=
   | "guessedwords" => some (match (newGuessed gt (parseCps (g 0)) (parseCps (g 1))).bind (entryToWords ct adjF adjvF) with
       | some ws => showWords ws
       | none => "panic")
-  | "words" => (parseSpeechToken (g 0)).map fun sp =>
+  | "words" | "wordsref" => (parseSpeechToken (g 0)).map fun sp =>
       match entryToWords ct adjF adjvF ⟨parseCps (g 2), parseCps (g 1), sp⟩ with
       | some ws => showWords ws
       | none => "panic"
